@@ -1129,6 +1129,8 @@ def run(rep, tier):
         rep.extra["abi_entry_points_used"] = {b: sorted(v["entries"]) for b, v in be.items()}
         rep.extra["abi_call_pairs"] = {b: sorted(f"{v}/{l}" for v, l in x["pairs"]) for b, x in be.items()}
         rep.floor("R16.3", "abi:: entry points found in abi.rs", len(emit.entries), 7)
+        built = set().union(*emit.direct.values())
+        rep.floor("R16.3", "Instruction variants with an emitter found in abi.rs", len(built & set(enums.v["Instruction"])), 97)
         rep.floor("R16.3", "abi::call sites in backends", sum(1 for x in be.values() for c in x["calls"] if c[0] == "call"), 13)
     rep.guard("R16.3", "backend entry points", backend_facts)
     if len(be) != len(BACKENDS):
